@@ -1,31 +1,58 @@
 #!/venv/bin/python
-"""Apply a patch to /repo, run every quick check in parallel, undo the patch.
-usage: try_patch_all.py <patch.diff> [--expect-silent]
-Prints one line per property whose check does not exit 0."""
-import subprocess, sys, os, json, concurrent.futures
-patch = os.path.abspath(sys.argv[1])
-def sh(cmd, **kw):
-    return subprocess.run(cmd, shell=True, stdout=subprocess.PIPE, stderr=subprocess.STDOUT, **kw)
-if sh('git -C /repo diff --quiet').returncode != 0:
-    print('/repo dirty, refusing'); sys.exit(9)
-r = sh('git -C /repo apply %s' % patch)
-if r.returncode != 0:
-    print('PATCH DOES NOT APPLY', r.stdout.decode()[-300:]); sys.exit(8)
-try:
+"""Apply a patch to a scratch copy of /repo's package (never to /repo itself), run every check on the copy
+in parallel, remove the copy.
+usage: try_patch_all.py <patch.diff> [<patch.diff> ...]
+Prints one line per property whose check is not silent (REFUTED, UNKNOWN, floor failure, analysis error)."""
+import os, shutil, subprocess, sys, tempfile, multiprocessing
+sys.path.insert(0, '/verif')
+from pxv import core, selftest
+
+
+def one(args):
+    patch, prop = args
+    root = core.repo_root()
+    tmp = tempfile.mkdtemp(prefix='pxv_try_')
+    try:
+        shutil.copytree(os.path.join(root, 'pylatexenc'), os.path.join(tmp, 'pylatexenc'),
+                        ignore=shutil.ignore_patterns('__pycache__'))
+        ok, out = selftest._apply_patch(tmp, patch)
+        if not ok:
+            return prop, 8, 'PATCH DOES NOT APPLY ' + out
+        try:
+            ctx = selftest.evaluate(prop, tmp)
+        except core.AnalysisError as e:
+            return prop, 2, 'ANALYSIS-ERROR %s' % e
+        except Exception as e:      # a crash of the checker is a result worth seeing, too
+            import traceback
+            return prop, 2, 'CRASH %s' % traceback.format_exc()[-400:]
+        known = {k['key'] for k in core.load_known_findings()
+                 if k.get('property') == prop and k.get('status') == 'known'}
+        ref = [o for o in ctx.obs if o.verdict == core.REFUTED and o.key() not in known]
+        unk = [o for o in ctx.obs if o.verdict == core.UNKNOWN]
+        low = ctx.floor_failures() if hasattr(ctx, 'floor_failures') else []
+        if ref or unk or low:
+            txt = ' || '.join(['%s %s: %s' % (o.rule, 'REFUTED', o.reason[:260]) for o in ref[:2]] +
+                              ['%s UNKNOWN: %s' % (o.rule, o.reason[:160]) for o in unk[:2]] +
+                              ['floor %s' % (low,)] * bool(low))
+            return prop, 1 if ref else 0, txt
+        return prop, 0, ''
+    finally:
+        shutil.rmtree(tmp, ignore_errors=True)
+
+
+if __name__ == '__main__':
+    import importlib
+    for i in range(1, 21):
+        importlib.import_module('pxv.rules.c%02d' % i)
+    patches = [os.path.abspath(a) for a in sys.argv[1:] if not a.startswith('--')]
     props = ['C%02d' % i for i in range(1, 21)]
-    def one(p):
-        env = dict(os.environ, PXV_EVIDENCE_DIR='/tmp/pxv_evidence_scratch')
-        r = subprocess.run(['/venv/bin/python', '-m', 'pxv', 'check', p], cwd='/verif', env=env,
-                           stdout=subprocess.PIPE, stderr=subprocess.STDOUT)
-        return p, r.returncode, r.stdout.decode('utf-8', 'replace')
-    bad = 0
-    with concurrent.futures.ThreadPoolExecutor(10) as ex:
-        for p, rc, out in ex.map(one, props):
-            if rc != 0 or '\n  UNKNOWN ' in out:
+    tasks = [(p, q) for p in patches for q in props]
+    with multiprocessing.Pool(min(16, len(tasks))) as pool:
+        res = pool.map(one, tasks, chunksize=1)
+    for p in patches:
+        bad = 0
+        for (pp, q), (prop, rc, txt) in zip(tasks, res):
+            if pp == p and (rc != 0 or txt):
                 bad += 1
-                lines = [l for l in out.splitlines() if not l.startswith('  rule') and 'VIOLATION property' not in l]
-                print('%s rc=%d :: %s' % (p, rc, ' || '.join(l[:300] for l in lines[1:4])))
-    print('%s: %d/20 checks not silent' % (os.path.basename(patch), bad))
-finally:
-    sh('git -C /repo checkout -- .')
-sys.exit(0)
+                print('%s rc=%d :: %s' % (prop, rc, txt))
+        print('%s: %d/20 checks not silent' % (os.path.basename(p) if len(patches) > 1 or True else p, bad))
